@@ -4,7 +4,7 @@ from ..gen.checks import GenCheck, COMMON_ASSUMPTIONS
 
 ENGINE = "dgen+refsem"
 TECHNIQUE = "runtime monitoring: random well-formed designs emitted as real Transactron objects, simulated under hostile input valuations; per-cycle oracle = independent reference semantics over sampled run/data/witness signals"
-CHECK = GenCheck("C05", ("C05:",), {"nonex_weight": 2.0, "p_call": 0.5}, scheds=("eager", "rr"), library=True, suite=True, nontrivial_counter="routed_args_with_several_potential_callers")
+CHECK = GenCheck("C05", ("C05:",), {"nonex_weight": 2.0, "p_call": 0.5, "p_deepchain": 0.4, "p_elif_diamond": 0.3}, scheds=("eager", "rr"), library=True, suite=True, nontrivial_counter="routed_args_with_several_potential_callers")
 shards, run_shard = CHECK.shards, CHECK.run_shard
 ASSUMPTIONS = COMMON_ASSUMPTIONS
 RULE = ("[plus two realistic workloads with the design-independent sanitizer vf/txsan.py attached - library components under the hostile component drivers (lib shards) and the repository's own tests (suite shards: two files quick, all files thorough): whenever an exclusive method runs with exactly one active call site, its data_in equals the argument structure of that site; conditions C05:lib:* / C05:suite:*] random well-formed designs with unique-per-site arguments (external inputs, constants, caller's own argument), nonexclusive methods with OR / sum / default combiners, provide() alias chains of length <= 2; oracle: exclusive method input == argument of its single active site, combiner input == combiner over exactly the active sites, every active site observes the method output of that cycle, alias signals equal the body's; non-trivial design = a running exclusive method with >= 2 potential callers; distinct = (design shape signature, scheduler)")
